@@ -699,7 +699,6 @@ func AnalyseGate(fn *ssa.Function, subjects map[ssa.Value]bool, defBlock *ssa.Ba
 	return g
 }
 
-
 // refineByEnumeration handles atoms over constant tables: the candidate subject values
 // at which the truth of the atom is not constant are finitely many (indices of the table /
 // keys of the map, pulled back through the invertible part of the chain); they are listed
